@@ -21,6 +21,8 @@ pub const ED_ISSUER2_PRIV: &str = include_str!("../keys/ed_issuer2.pem");
 pub const ED_ISSUER2_PUB: &str = include_str!("../keys/ed_issuer2.pub.pem");
 pub const EC_HOLDER2_PRIV: &str = include_str!("../keys/ec_holder2.pem");
 pub const EC_HOLDER2_JWK: &str = r#"{"kid":"holder-key","kty":"EC","crv":"P-256","x":"pdVSVMLo5SQ14HPtNIxybtyrrx1gRF7LMcyi0KWOJHA","y":"tPsyOg1JwWyCdYxAXnFxXMV7rdRCuLdYJNWd7ZOp4eI"}"#;
+pub const EC_HOLDER_LZ_PRIV: &str = include_str!("../keys/ec_holder_lz.pem");
+pub const EC_HOLDER_LZ_JWK: &str = r#"{"kid":"holder-key","kty":"EC","crv":"P-256","x":"O5vT6FGnLk915WAxTBEbHJzNdFU2djWwtd9JX6Sy2F4","y":"ADozXJDo6XesR3A9RmRlQ4wR0jsZxF2QDeMY2O35s8M"}"#;
 pub const ED_HOLDER2_PRIV: &str = include_str!("../keys/ed_holder2.pem");
 pub const ED_HOLDER2_JWK: &str = r#"{"kid":"holder-key","kty":"OKP","crv":"Ed25519","x":"sJHTHMbNIv5lFK9hcWj82DC7aG9I7fGT8UjKCmd7poo"}"#;
 pub const EC_ATTACKER_PRIV: &str = include_str!("../keys/ec_attacker.pem");
@@ -101,13 +103,16 @@ pub enum Hk {
     None,
     Es,
     Ed,
+    /// a P-256 key whose y coordinate begins with a zero octet (about one key in 128 has such a coordinate);
+    /// not part of HKS / the 36 configurations, used in dedicated scopes
+    EsLz,
 }
 pub const HKS: [Hk; 3] = [Hk::None, Hk::Es, Hk::Ed];
 impl Hk {
     pub fn alg(self) -> Option<&'static str> {
         match self {
             Hk::None => None,
-            Hk::Es => Some("ES256"),
+            Hk::Es | Hk::EsLz => Some("ES256"),
             Hk::Ed => Some("EdDSA"),
         }
     }
@@ -115,12 +120,14 @@ impl Hk {
         match self {
             Hk::None => "none",
             Hk::Es => "ES256",
+            Hk::EsLz => "ES256-leading-zero-coordinate",
             Hk::Ed => "EdDSA",
         }
     }
     pub fn jwk_str(self, which: usize) -> Option<&'static str> {
         match (self, which) {
             (Hk::None, _) => None,
+            (Hk::EsLz, _) => Some(EC_HOLDER_LZ_JWK),
             (Hk::Es, 0) => Some(EC_HOLDER_JWK),
             (Hk::Es, _) => Some(EC_HOLDER2_JWK),
             (Hk::Ed, 0) => Some(ED_HOLDER_JWK),
@@ -137,6 +144,7 @@ impl Hk {
     pub fn enc(self, which: usize) -> Option<EncodingKey> {
         match (self, which) {
             (Hk::None, _) => None,
+            (Hk::EsLz, _) => Some(EncodingKey::from_ec_pem(EC_HOLDER_LZ_PRIV.as_bytes()).unwrap()),
             (Hk::Es, 0) => Some(EncodingKey::from_ec_pem(EC_HOLDER_PRIV.as_bytes()).unwrap()),
             (Hk::Es, _) => Some(EncodingKey::from_ec_pem(EC_HOLDER2_PRIV.as_bytes()).unwrap()),
             (Hk::Ed, 0) => Some(EncodingKey::from_ed_pem(ED_HOLDER_PRIV.as_bytes()).unwrap()),
